@@ -134,7 +134,8 @@ def maxEndpointChord (x a b : V3) : F64 :=
 /-- the candidate maximum distance of `UpdateMaxDistance` (the value of `dist` before the final comparison) -/
 def maxCandidate (x a b : V3) : F64 :=
   let dist0 := maxEndpointChord x a b
-  if F64.gt dist0 f2 then f4 - (updateMinDistance (x.mul fNegOne) a b dist0 true).1 else dist0
+  if F64.gt (chordExpanded dist0 (maxPointError dist0)) f2 then
+    f4 - (updateMinDistance (x.mul fNegOne) a b dist0 true).1 else dist0
 
 /-- `UpdateMaxDistance` compares the old value with the candidate, strictly. -/
 theorem updateMaxDistance_eq (x a b : V3) (m : F64) :
@@ -154,29 +155,36 @@ theorem updateMaxDistance_false_unchanged (x a b : V3) (m : F64) :
   rw [updateMaxDistance_eq]
   split_ifs <;> simp
 
-/-- **antipode identity as coded**: beyond a right angle the maximum distance is `4 −` the (always computed)
-    minimum distance from the antipode `−x = x·(−1)`. -/
-theorem maxCandidate_antipode (x a b : V3) (h : F64.gt (maxEndpointChord x a b) f2 = true) :
+/-- the 90-degree test of `UpdateMaxDistance` after repair D41: the larger endpoint chord, expanded by its
+    `MaxPointError`, exceeds the right-angle chord 2 -/
+def beyondRightAngle (x a b : V3) : Bool :=
+  F64.gt (chordExpanded (maxEndpointChord x a b) (maxPointError (maxEndpointChord x a b))) f2
+
+/-- **antipode identity as coded**: beyond a right angle (up to the error of the endpoint distances) the
+    maximum distance is `4 −` the (always computed) minimum distance from the antipode `−x = x·(−1)`. -/
+theorem maxCandidate_antipode (x a b : V3) (h : beyondRightAngle x a b = true) :
     maxCandidate x a b = f4 - (updateMinDistance (x.mul fNegOne) a b (maxEndpointChord x a b) true).1 := by
   unfold maxCandidate
+  unfold beyondRightAngle at h
   simp only [h, if_true]
 
 /-- the same identity in terms of `DistanceFromSegment`'s chord: `4 − dist(−x, ab)` -/
-theorem maxCandidate_antipode_chord (x a b : V3) (h : F64.gt (maxEndpointChord x a b) f2 = true) :
+theorem maxCandidate_antipode_chord (x a b : V3) (h : beyondRightAngle x a b = true) :
     maxCandidate x a b = f4 - distanceFromSegmentChord (x.mul fNegOne) a b := by
   rw [maxCandidate_antipode x a b h]
   unfold distanceFromSegmentChord
   rw [(updateMinDistance_always (x.mul fNegOne) a b (maxEndpointChord x a b) fz).2]
 
 /-- otherwise (also when the chord is NaN) the candidate is the larger endpoint chord. -/
-theorem maxCandidate_near (x a b : V3) (h : F64.gt (maxEndpointChord x a b) f2 = false) :
+theorem maxCandidate_near (x a b : V3) (h : beyondRightAngle x a b = false) :
     maxCandidate x a b = maxEndpointChord x a b := by
   unfold maxCandidate
+  unfold beyondRightAngle at h
   simp only [h, Bool.false_eq_true, if_false]
 
 -- non-vacuity: X = (1,0,0), edge (−1,0,0)–(0,1,0): the larger chord is 4 > 2 ; X = A: it is not
 example :
-    F64.gt (maxEndpointChord ⟨F64.one, fz, fz⟩ ⟨fNegOne, fz, fz⟩ ⟨fz, F64.one, fz⟩) f2 = true ∧
+    beyondRightAngle ⟨F64.one, fz, fz⟩ ⟨fNegOne, fz, fz⟩ ⟨fz, F64.one, fz⟩ = true ∧
     F64.gt (maxEndpointChord ⟨F64.one, fz, fz⟩ ⟨F64.one, fz, fz⟩ ⟨fz, F64.one, fz⟩) f2 = false := by
   decide +kernel
 
